@@ -704,7 +704,7 @@ def shard_B(task):
         entry = ENTRIES[(pos + nl) % 2] if tier != "thorough" else None
         for e in ([entry] if entry else ENTRIES):
             record(part, tree, fams, e, "B")
-        done += 1
+            done += 1
     part.space("B:one-compound-leaf", 0, done)
     part.extra["library_evaluations"] += STATS.pop("library_evaluations", 0)
     if lo == 0:
@@ -795,7 +795,8 @@ def run(ctx):
         "filter trees over {list, and, or, not} with 1-3 children; a case is (tree shape, leaf family per position, entry point); "
         f"A: every shape of depth<={b['A'][0]}, <={b['A'][1]} leaves, <={b['A'][2]} connectives x value-leaf patterns {{plain (all leaves resource[ki]), cycle (forms {CYCLE} by position; shapes with <={cycle_max_leaves(ctx.tier)} leaves)}} x both entry points; "
         f"B: every shape of depth<={b['B'][0]}, <={b['B'][1]} leaves, <={b['B'][2]} connectives x every leaf position x one compound leaf there "
-        f"(operator-class representatives {REPS}; all {len(FAMILIES)} families on the shapes with <={b['B_all'][2]} connectives); "
+        f"(operator-class representatives {REPS}; all {len(FAMILIES)} families on the shapes with <={b['B_all'][1]} leaves and <={b['B_all'][2]} connectives; "
+        + ("both entry points" if ctx.thorough else "entry points alternating") + "); "
         "C: " + " plus ".join(f"every shape of depth<={bd[0]}, {lo}..{bd[1]} leaves, <={bd[2]} connectives x every tuple over {len(nm)} families" for bd, lo, nm in b["C"]) + "; "
         "each case is evaluated under every product of its leaves' states (2-4 per leaf), evaluations counts those worlds; "
         "a case is non-trivial iff under at least one world every leaf alone evaluates to a boolean (the oracle c7nbool is then compared)")
@@ -824,7 +825,7 @@ def run(ctx):
     nA_cycle = c7nbool.count_shapes(b["A"][0], min(b["A"][1], cycle_max_leaves(ctx.tier)), b["A"][2])
     sp["A:value-leaves"]["cardinality"] = (nA + nA_cycle) * len(ENTRIES)
     sp["A:value-leaves"]["bound"] = f"depth<={b['A'][0]} leaves<={b['A'][1]} connectives<={b['A'][2]}"
-    sp["B:one-compound-leaf"]["cardinality"] = nB
+    sp["B:one-compound-leaf"]["cardinality"] = nB * (len(ENTRIES) if ctx.thorough else 1)   # thorough: both entry points
     sp["B:one-compound-leaf"]["bound"] = f"depth<={b['B'][0]} leaves<={b['B'][1]} connectives<={b['B'][2]}"
     sp["C:all-leaves-compound"]["cardinality"] = nC
     sp["C:all-leaves-compound"]["bound"] = str([(bd, lo, len(nm)) for bd, lo, nm in b["C"]])
